@@ -25,3 +25,51 @@ Proof.
   destruct (layers (G * M) Rp k _ P2 Prest Ts ms) as [rows zf] eqn:E.
   cbn. unfold gen_scale_step, gen_gravity_at_height. rnum. reflexivity.
 Qed.
+
+(* The altitude loop as Python runs it: the state after pass i-1 is (z, H, g) of layer i-1 and the pressure of its lower
+   boundary; pass i (i < nlayers) applies the regenerated body; the last pass (i = nlayers) runs only the two statements
+   before `if i < nlayers:` — its gravity and scale-height results are not computed, here they are discarded. Started as
+   the code starts (z = 0, g[0] = surface gravity, H[0] = k T[0] / (mu[0] g[0])) the loop yields, for ANY number of layers,
+   exactly the rows and the top altitude of the model's recursion `layers` that the theorems of Props_C11.v are about. *)
+Fixpoint altitude_loop (step : R -> R -> R -> R -> R -> R -> R * R * R * R) (z H g Pprev : R) (Pnext Ts ms : list R)
+  : list (R * R * R * R) * R :=
+  match Pnext with
+  | [] => ([], z)
+  | P1 :: Prest =>
+      match Ts, ms with
+      | t :: Ts', m :: ms' =>
+          match step H P1 Pprev z t m with
+          | (dz, z1, g1, H1) =>
+              match altitude_loop step z1 H1 g1 P1 Prest Ts' ms' with
+              | (rows, zf) => ((z, H, g, dz) :: rows, zf)
+              end
+          end
+      | _, _ =>
+          match step H P1 Pprev z 0 0 with
+          | (dz, z1, _, _) => ([(z, H, g, dz)], z1)
+          end
+      end
+  end.
+
+Lemma tie_altitude_loop : forall (G M Rp k : R) (Pnext Ts ms : list R) (z Pj t m : R),
+  length Ts = length ms -> length Pnext = S (length Ts) ->
+  altitude_loop (gen_scale_step (gen_gravity_at_height G M Rp) k)
+                z (k * t / (m * (G * M / ((Rp + z) * (Rp + z))))) (G * M / ((Rp + z) * (Rp + z))) Pj Pnext Ts ms
+  = @layers R RTNum (G * M) Rp k z Pj Pnext (t :: Ts) (m :: ms).
+Proof.
+  intros G M Rp k Pnext. induction Pnext as [|P1 Prest IH]; intros Ts ms z Pj t m Hlen Hn.
+  - discriminate Hn.
+  - destruct Ts as [|t2 Ts']; destruct ms as [|m2 ms']; try discriminate Hlen.
+    + (* last layer *)
+      destruct Prest as [|P2 Prest']; [|discriminate Hn].
+      cbn [altitude_loop layers]. unfold gen_scale_step. rnum. reflexivity.
+    + cbn [altitude_loop]. unfold gen_scale_step at 1. unfold gen_gravity_at_height at 1. cbn beta iota zeta.
+      cbn [length] in Hlen, Hn. injection Hlen as Hlen. injection Hn as Hn.
+      specialize (IH Ts' ms' (z + -1 * (k * t / (m * (G * M / ((Rp + z) * (Rp + z))))) * ln (P1 / Pj)) P1 t2 m2 Hlen Hn).
+      cbn [layers]. rnum.
+      match goal with |- context [altitude_loop ?s ?a ?b ?c ?d ?e ?f ?g] =>
+        replace (altitude_loop s a b c d e f g) with
+          (@layers R RTNum (G * M) Rp k (z + -1 * (k * t / (m * (G * M / ((Rp + z) * (Rp + z))))) * ln (P1 / Pj)) P1 Prest (t2 :: Ts') (m2 :: ms'))
+      end.
+      all: first [reflexivity | (rewrite <- IH; reflexivity)].
+Qed.
